@@ -203,3 +203,95 @@ func VerifHarness_C16_O1seq() {
 // C08/O3 — the per-participant index is read with requester-controlled skip
 // values (SyncRequest.Known): no value may crash it (same obligation as C16/O1get).
 func VerifHarness_C08_O3rolling() { VerifHarness_C16_O1get() }
+
+// C16/O2 — LRU against a reference association list: sequences of 4 (thorough
+// 5) operations Add/Get/Peek/Remove with SYMBOLIC keys (ints) and values on a
+// cache of size 1..2: a hit returns the last value added for that key, a miss
+// is a miss, eviction removes exactly the least recently used entry.
+func VerifHarness_C16_O2() {
+	size := 1 + verifChoice("size", 2)
+	c := NewLRU(size, nil)
+	// reference: most-recently-used first
+	var rk, rv []int
+	find := func(k int) int {
+		pos := -1
+		for i := range rk {
+			if rk[i] == k {
+				pos = i
+			}
+		}
+		return pos
+	}
+	touch := func(pos int) {
+		k, v := rk[pos], rv[pos]
+		rk = append(append([]int{k}, rk[:pos]...), rk[pos+1:]...)
+		rv = append(append([]int{v}, rv[:pos]...), rv[pos+1:]...)
+	}
+	ops := 4
+	if verifTier() > 0 {
+		ops = 5
+	}
+	for s := 0; s < ops; s++ {
+		op := verifChoice(fmt.Sprintf("op%d", s), 4)
+		k := verifNondetInt(fmt.Sprintf("key%d", s))
+		verifAssume(k >= 0 && k <= 2) // three-value key domain, chosen by the solver
+		switch op {
+		case 0: // Add
+			v := verifNondetInt(fmt.Sprintf("val%d", s))
+			evicted := c.Add(k, v)
+			pos := find(k)
+			if pos >= 0 {
+				rv[pos] = v
+				touch(pos)
+				verifAssert(fmt.Sprintf("step%d-update-does-not-evict", s), !evicted)
+			} else {
+				rk = append([]int{k}, rk...)
+				rv = append([]int{v}, rv...)
+				if len(rk) > size {
+					rk = rk[:size]
+					rv = rv[:size]
+					verifAssert(fmt.Sprintf("step%d-overflow-evicts", s), evicted)
+				} else {
+					verifAssert(fmt.Sprintf("step%d-no-eviction-below-capacity", s), !evicted)
+				}
+			}
+		case 1: // Get
+			v, ok := c.Get(k)
+			pos := find(k)
+			if pos >= 0 {
+				vi, isInt := v.(int)
+				verifAssert(fmt.Sprintf("step%d-hit-returns-last-value", s), ok && isInt && vi == rv[pos])
+				touch(pos)
+			} else {
+				verifAssert(fmt.Sprintf("step%d-miss", s), !ok)
+			}
+		case 2: // Peek (does not refresh)
+			v, ok := c.Peek(k)
+			pos := find(k)
+			if pos >= 0 {
+				vi, isInt := v.(int)
+				verifAssert(fmt.Sprintf("step%d-peek-returns-last-value", s), ok && isInt && vi == rv[pos])
+			} else {
+				verifAssert(fmt.Sprintf("step%d-peek-miss", s), !ok)
+			}
+		case 3: // Remove
+			removed := c.Remove(k)
+			pos := find(k)
+			verifAssert(fmt.Sprintf("step%d-remove-reports-presence", s), removed == (pos >= 0))
+			if pos >= 0 {
+				rk = append(append([]int{}, rk[:pos]...), rk[pos+1:]...)
+				rv = append(append([]int{}, rv[:pos]...), rv[pos+1:]...)
+			}
+		}
+		verifAssert(fmt.Sprintf("step%d-len", s), c.Len() == len(rk))
+		for i := range rk {
+			verifAssert(fmt.Sprintf("step%d-contains-%d", s, i), c.Contains(rk[i]))
+		}
+		if len(rk) > 0 {
+			ok2, _, has := c.GetOldest()
+			oi, isInt := ok2.(int)
+			verifAssert(fmt.Sprintf("step%d-oldest-is-least-recently-used", s), has && isInt && oi == rk[len(rk)-1])
+		}
+	}
+	verifReach("end")
+}
